@@ -275,9 +275,16 @@ impl ProxyClusterMeta {
         let mut peer = NodeMap::new(HashMap::default());
         let mut cluster_config = ClusterConfigData::default();
         let mut extended_meta_result = Ok(());
+        let mut parsed_sections = Vec::new();
 
         while let Some(token) = it.next() {
-            match token.to_uppercase().as_str() {
+            let section = token.to_uppercase();
+            // A repeated section would silently replace the former one.
+            if parsed_sections.contains(&section) {
+                return Err(CmdParseError::InvalidArgs);
+            }
+            parsed_sections.push(section.clone());
+            match section.as_str() {
                 PEER_PREFIX => peer = NodeMap::parse(it)?,
                 CONFIG_PREFIX => match ClusterConfigData::parse(it) {
                     Ok(c) => cluster_config = c,
